@@ -41,14 +41,15 @@ const (
 )
 
 type emMethod struct {
-	Name     string
-	Mnem     string
-	Mode     ref.Mode
-	Arg      argKind
-	Guard    guard
-	Transfer bool // taken control transfer / flag restore / stop: excluded from straight-line programs
-	op       byte
-	m        ref.Mnem
+	Name       string
+	Mnem       string
+	Mode       ref.Mode
+	Arg        argKind
+	Guard      guard
+	Transfer   bool // taken control transfer / flag restore / stop: excluded from straight-line programs
+	Discovered bool // not in the hand-written table: read from the method's name and signature (discover.go)
+	op         byte
+	m          ref.Mnem
 }
 
 func (m *emMethod) size() int {
@@ -169,6 +170,7 @@ var emNonInstruction = map[string]bool{
 var emByName = map[string]*emMethod{}
 
 func init() {
+	discoverMethods()
 	for _, m := range emMethods {
 		mn, ok := ref.MnemByName(m.Mnem)
 		if !ok {
@@ -191,7 +193,13 @@ func unmappedEmitterMethods() (unmapped []string, missing []string) {
 		n := t.Method(i).Name
 		seen[n] = true
 		if emByName[n] == nil && !emNonInstruction[n] {
-			unmapped = append(unmapped, n)
+			long := false
+			for _, m := range emLabelLong {
+				long = long || m.Name == n
+			}
+			if !long {
+				unmapped = append(unmapped, n)
+			}
 		}
 	}
 	for _, m := range emMethods {
@@ -304,6 +312,26 @@ func invoke(e *asm.Emitter, c hcall) (pan interface{}) {
 	case "data":
 		// the caller owns its buffer: hand over a private copy and reuse (scribble over) it
 		// right after the call, as a caller filling one scratch buffer repeatedly would
+		if n := len(c.Data); n >= 2 && c.Data[0]%4 == 0 && e.Cap() >= e.Len()+2*n {
+			// ... or the source lies in the target itself, a little ahead of the write position and
+			// overlapping the destination (a table built in place and then moved down into position)
+			b := e.Bytes()
+			at := len(b) + 1 + int(c.Data[1])%(n-1)
+			if b != nil && at+n <= cap(b) && at+n <= e.Cap() {
+				region := b[at : at+n : at+n]
+				saved := append([]byte(nil), region...)
+				copy(region, c.Data)
+				defer func() { // what is still free space afterwards is given back as it was
+					for i := range region {
+						if at+i >= e.Len() {
+							region[i] = saved[i]
+						}
+					}
+				}()
+				e.EmitBytes(region)
+				return nil
+			}
+		}
 		tmp := append([]byte(nil), c.Data...)
 		defer func() {
 			for i := range tmp {
